@@ -6,8 +6,8 @@ Definition order_preserved_full : Prop :=
 
 (* witnesses.  Functions: 1 = f, assigns variable 0 := 10 directly, returns 100;
    2 = g/print-like, prints, no writes; 3 = second writer (variable 0 := 20, returns 200);
-   4 = pure wrapper (no effect); 5 = bump: increments location 0 through a record field (not seen by
-   the analyzer) and returns its new value *)
+   4 = pure wrapper (no effect); 5 = bump: increments location 0 through a record field and returns its
+   new value *)
 Definition fe_w : fenv := fun f =>
   match f with
   | 1%nat => mk_fdef true [mk_w true 0 10 false] None 100
@@ -47,12 +47,13 @@ Definition e_wrapper : expr := EBin AAdd (ECall 4 [ECall 1 []]) (ECall 3 []).
 Lemma order_refuted_wrapper : exists o, nelua_run fe_w e_wrapper st_w o <> lua_run fe_w e_wrapper st_w.
 Proof. exists [1%nat]. vm_compute. discriminate. Qed.
 
-(* show(bump(), bump()): bump writes through a record field, so the analyzer does not mark it and the
-   two calls are emitted unsequenced *)
+(* show(bump(), bump()): bump writes through a record field.  Before /repo 9e49985 the analyzer did not
+   mark it and the two calls were emitted unsequenced; now both arguments are hoisted into temporaries
+   and every C evaluation order gives Lua's result *)
 Definition e_unflagged : expr := ECall 2 [ECall 5%nat []; ECall 5%nat []].
-Lemma order_refuted_unflagged : exists o, nelua_run fe_w e_unflagged st_w o <> lua_run fe_w e_unflagged st_w.
-Proof. exists [1%nat]. vm_compute. discriminate. Qed.
-Example bump_is_unflagged : f_se (fe_w 5%nat) = false. Proof. reflexivity. Qed.
+Lemma order_indirect_store_sequenced : forall o, nelua_run fe_w e_unflagged st_w o = lua_run fe_w e_unflagged st_w.
+Proof. intros o. destruct o as [|c o]; vm_compute; reflexivity. Qed.
+Example bump_is_flagged : f_se (fe_w 5%nat) = true. Proof. reflexivity. Qed.
 
 Lemma order_refuted : ~ order_preserved_full.
 Proof.
